@@ -354,8 +354,9 @@ example : ∃ (chains : List Chain) (b : Buf),
     Uses the zipper specs of Lemmas/BufZipper.lean; the two generated variants of buffer.rs it needs
     (`ensureGrowOnly`, `moveToRewindReversed` — the repairs of D6 and D5) are discharged by `decide` here, so a
     regression of either breaks this theorem.
-    Full statement (not proved): the same for the marked-insertion block (`InsS.insMarked`: `move_to(mark)` first)
-    and for the ligature transition (`ligLoop`: `move_to` to each component, `replace_glyph`, deletions). -/
+    The same for the marked-insertion block (`InsS.insMarked`: `move_to(mark)` first) is
+    `C17_insertion_marked_is_list_insertion`, and for the ligature transition (`LigS.ligLoop`: `move_to` to each
+    component, `replace_glyph`, deletions) `C17_ligature_stack_discipline` / `C17_ligature_store` below. -/
 theorem C17_inplace_zipper_partial (glyphs : Nat → Option Nat) (start c : Nat) (before dontAdvance : Bool)
     (b : RbModel.Buf) (hinv : RbModel.Buf.Inv b) (hne : 0 < RbModel.Buf.total b)
     (hgl : ∀ k, k < c → (glyphs (start + k)).isSome = true) :
